@@ -26,7 +26,7 @@ SPEC = {
     "assumptions": ["vlib/defassign.py definite-assignment analysis (source-level control-flow paths)", "vlib/refeval.py for the run-time echo"],
     "min_evaluations": {"quick": 8000, "thorough": 80000},
     "must_reach": ["must_reject_rejected", "clean_accepted", "in_sub", "in_main", "runtime_echo_runs", "mutated_random", "diamonds"],
-    "shard_timeout": {"quick": 600, "thorough": 7200},
+    "shard_timeout": {"quick": 2400, "thorough": 14400},
 }
 
 
